@@ -293,6 +293,30 @@ fn lifecycle_case(dir: &Path, rng: &mut Rng, stats: &mut Counts) -> R<String> {
             let _ = ks.rotate_memtable();
         }
     }
+    // half of the cases probe an instance that *recovered* the directory (second session) instead of the one that created it
+    let (db, inner, kss) = if rng.chance(1, 2) {
+        let names: Vec<String> = (0..kss.len()).map(|i| format!("k{i}")).collect();
+        drop(kss);
+        drop(inner);
+        drop(db);
+        workers_gone(5_000)?;
+        let db = open_any(dir, front, workers).map_err(|e| {
+            Deviation::new(
+                "lock:open-after-last-drop-failed",
+                format!("reopening after every handle of the creating session was dropped returned `{}`", classify_open_err(&e)),
+            )
+        })?;
+        let inner = db.inner();
+        let mut kss = Vec::new();
+        for n in &names {
+            kss.push(inner.keyspace(n, KeyspaceCreateOptions::default).map_err(|e| Deviation::new("unexpected-error:keyspace", format!("{e:?}")))?);
+        }
+        stats.inc("lifecycle.probed_instance_recovered_the_directory");
+        desc.push_str(" recovered-instance");
+        (db, inner, kss)
+    } else {
+        (db, inner, kss)
+    };
     // build the set of held handles
     let mut held: Vec<Held> = vec![Held::Db(db)];
     for _ in 0..rng.range(0, 3) {
@@ -447,6 +471,22 @@ fn hot_drop_case(dir: &Path, rng: &mut Rng, stats: &mut Counts) -> R<String> {
         }
         if rng.chance(1, 3) {
             let _ = ks.rotate_memtable();
+        }
+        if rng.chance(1, 4) {
+            // a documented panic (invalid keyspace name) on another thread must leave the database usable and droppable
+            let db2 = inner.clone();
+            let bad = if rng.chance(1, 2) { String::new() } else { "x".repeat(300) };
+            let r = std::thread::Builder::new()
+                .name("bad-name".into())
+                .spawn(move || {
+                    let _ = db2.keyspace(&bad, KeyspaceCreateOptions::default);
+                })
+                .expect("spawn")
+                .join();
+            let _ = crate::take_panic();
+            if r.is_err() {
+                stats.inc("hot_drop.invalid_name_panics");
+            }
         }
         // the drop comes 0..400 microseconds after the last write
         let spin = rng.below(400);
